@@ -204,7 +204,7 @@ Proof.
     + destruct (N.eqb_spec c MAXC) as [|Hne]; [discriminate|]. inversion Hins; subst.
       apply pn_wf_intro; auto; lia.
     + destruct (pf_insert b k ch) as [ch'|] eqn:E; [|discriminate]. cbn in Hins. inversion Hins; subst.
-      destruct (IHf b k ch' Hs Hw E) as (A & B & C & _). apply pn_wf_intro; auto. intros ->. congruence.
+      destruct (IHf b k ch' Hs Hw E) as (A & B & C & _). apply pn_wf_intro; auto; intros ->; congruence.
   - intros b k f' _ _ H. cbn in H. inversion H; subst.
     rewrite psorted_cons, pf_wf_cons, pn_wf_fresh. repeat split; auto; try discriminate.
     all: intros x _ Hx; rewrite pall_gt_cons; apply N.ltb_lt in Hx; rewrite Hx; reflexivity.
@@ -271,7 +271,7 @@ Proof.
       * split; [|split].
         -- destruct (N.eqb_spec c 0); [lia | reflexivity].
         -- cbn [pno_count]. rewrite !pn_count_eq. destruct k'; reflexivity.
-        -- cbn [pno_wf]. apply pn_wf_intro; auto; try lia. intros E. specialize (Hnil E). lia.
+        -- cbn [pno_wf]. apply pn_wf_intro; auto; try lia; intros E; specialize (Hnil E); lia.
       * split; [reflexivity|]. split.
         -- rewrite pno_count_mk, !pn_count_eq. destruct k'; cbn [list_eqb]; [lia | reflexivity].
         -- apply pno_wf_mk; auto. unfold MAXC. lia.
@@ -288,7 +288,7 @@ Proof.
     rewrite pf_delete_cons, !pf_count_cons.
     destruct (N.eqb_spec b b0) as [->|Hne].
     + destruct (IHn k k' Hwn) as (A & B & C).
-      destruct (pn_delete k n) as [[n'|] x] eqn:E; cbn [fst snd] in *.
+      destruct (pn_delete k n) as [[n'|] x] eqn:E; cbn [fst snd pno_wf pno_count] in *.
       * split; [exact A|]. rewrite pf_count_cons, (N.eqb_sym b' b0).
         rewrite psorted_cons, pf_wf_cons, Hgt, Hs, Hwr, C.
         split; [destruct (b0 =? b'); cbn [andb]; [exact B | reflexivity]|].
@@ -397,7 +397,7 @@ Lemma pm_insert_none k m : pm_wf m = true -> (pm_insert k m = None <-> pm_count 
 Proof.
   destruct m as [n|]; cbn [pm_wf pm_insert pm_count].
   - intros Hwf. rewrite <- (proj1 pn_insert_none_mut n k Hwf).
-    destruct (pn_insert k n); cbn; split; congruence.
+    destruct (pn_insert k n); cbn; split; intros H; (discriminate H || reflexivity).
   - intros _. split; [discriminate | intros H; inversion H].
 Qed.
 
@@ -409,16 +409,21 @@ Proof.
   - intros _ H. inversion H; subst. cbn [pm_wf]. apply pn_wf_fresh.
 Qed.
 
+Lemma pm_count_pno k o : pm_count k o = pno_count k o.
+Proof. destruct o; reflexivity. Qed.
+Lemma pm_wf_pno o : pm_wf o = pno_wf o.
+Proof. destruct o; reflexivity. Qed.
+
 Lemma pm_delete_spec k m k' :
   pm_wf m = true ->
   snd (pm_delete k m) = negb (pm_count k m =? 0)
   /\ pm_count k' (fst (pm_delete k m)) = (if list_eqb k k' then pm_count k' m - 1 else pm_count k' m)
   /\ pm_wf (fst (pm_delete k m)) = true.
 Proof.
-  destruct m as [n|]; cbn [pm_wf pm_delete pm_count].
+  destruct m as [n|].
   - intros Hwf. destruct (proj1 pn_delete_mut n k k' Hwf) as (A & B & C).
-    split; [exact A|]. split; [|exact C].
-    destruct (fst (pn_delete k n)); exact B.
+    rewrite pm_count_pno, pm_wf_pno. unfold pm_delete. cbn [pm_count].
+    split; [exact A|]. split; [exact B | exact C].
   - intros _. cbn. repeat split; auto. destruct (list_eqb k k'); reflexivity.
 Qed.
 
@@ -436,3 +441,88 @@ Proof.
   destruct m as [n|]; cbn [pm_wf pm_iohp pm_count]; [apply pn_iohp_mut|].
   intros _. split; [discriminate|]. intros (p & Hp & _). lia.
 Qed.
+
+(** * Every history of the prefix map is a history of the multiset *)
+
+Lemma bag_count_cons k x b :
+  bag_count k (x :: b) = if list_eqb k x then bag_count k b + 1 else bag_count k b.
+Proof.
+  unfold bag_count. cbn [filter]. destruct (list_eqb k x); [|reflexivity].
+  cbn [length]. lia.
+Qed.
+
+Lemma bag_count_pos k b : 0 < bag_count k b <-> In k b.
+Proof.
+  induction b as [|x b IH]; [cbn; split; [lia | intros []]|].
+  rewrite bag_count_cons. destruct (list_eqb k x) eqn:E.
+  - apply list_eqb_spec in E. subst. split; [intros _; left; reflexivity | lia].
+  - rewrite IH. apply list_eqb_neq in E. split; [intros H; right; exact H | intros [H|H]; [congruence | exact H]].
+Qed.
+
+Lemma bag_count_remove k b k' :
+  bag_count k' (bag_remove k b) = if list_eqb k k' then bag_count k' b - 1 else bag_count k' b.
+Proof.
+  induction b as [|x b IH]; cbn [bag_remove].
+  - destruct (list_eqb k k'); reflexivity.
+  - destruct (list_eqb k x) eqn:E.
+    + apply list_eqb_spec in E. subst x. rewrite bag_count_cons, (list_eqb_sym k' k).
+      destruct (list_eqb k k'); [lia | reflexivity].
+    + rewrite !bag_count_cons, IH. destruct (list_eqb k' x) eqn:E2; [|reflexivity].
+      apply list_eqb_spec in E2. subst x. rewrite E. reflexivity.
+Qed.
+
+Definition PInv (m : pmap) (b : bag) : Prop :=
+  pm_wf m = true /\ forall k, pm_count k m = bag_count k b.
+
+Lemma bool_eq_iff (a b : bool) : (a = true <-> b = true) -> a = b.
+Proof. destruct a, b; intros [H1 H2]; auto; try (symmetry; auto). Qed.
+
+Lemma pm_step_refines o m b :
+  PInv m b ->
+  snd (pm_step o m) = snd (bag_step o b) /\ PInv (fst (pm_step o m)) (fst (bag_step o b)).
+Proof.
+  intros [Hwf Hc]. destruct o as [k|k|k|k]; cbn [pm_step bag_step].
+  - destruct (N.eqb_spec (bag_count k b) MAXC) as [E|E].
+    + assert (X : pm_insert k m = None) by (apply pm_insert_none; [assumption | rewrite Hc; exact E]).
+      rewrite X. cbn. split; [reflexivity | split; assumption].
+    + destruct (pm_insert k m) as [m'|] eqn:X.
+      * cbn [fst snd]. split; [reflexivity|]. split; [eapply pm_wf_insert; eassumption|].
+        intros k'. rewrite (pm_count_insert k m m' k' Hwf X), bag_count_cons, Hc, (list_eqb_sym k' k).
+        reflexivity.
+      * exfalso. apply E. rewrite <- Hc. apply pm_insert_none; assumption.
+  - destruct (pm_delete_spec k m k Hwf) as (A & _ & C).
+    cbn [fst snd]. split; [rewrite A, Hc; reflexivity|]. split; [exact C|].
+    intros k'. destruct (pm_delete_spec k m k' Hwf) as (_ & B & _).
+    rewrite B, bag_count_remove, Hc. reflexivity.
+  - cbn [fst snd]. split; [|split; assumption].
+    apply bool_eq_iff. rewrite pm_no_prefix_spec, negb_true_iff. split.
+    + intros H. destruct (existsb (fun p => is_prefix p k) b) eqn:E; [|reflexivity].
+      apply existsb_exists in E as (p & Hin & Hp). specialize (H p Hp). rewrite Hc in H.
+      apply bag_count_pos in Hin. lia.
+    + intros H p Hp. rewrite Hc. destruct (N.eq_0_gt_0_cases (bag_count p b)) as [Z|Z]; [exact Z|].
+      apply bag_count_pos in Z. exfalso.
+      assert (X : existsb (fun p => is_prefix p k) b = true) by (apply existsb_exists; eauto).
+      congruence.
+  - cbn [fst snd]. split; [|split; assumption].
+    apply bool_eq_iff. rewrite (pm_iohp_spec k m Hwf), existsb_exists. split.
+    + intros (p & Hp & Hrel). rewrite Hc in Hp. apply bag_count_pos in Hp. exists p. split; [exact Hp|].
+      apply orb_true_iff. exact Hrel.
+    + intros (p & Hin & Hrel). exists p. rewrite Hc. split; [apply bag_count_pos; exact Hin|].
+      apply orb_true_iff. exact Hrel.
+Qed.
+
+Theorem pm_run_refines ops m b :
+  PInv m b ->
+  snd (pm_run ops m) = snd (bag_run ops b) /\ PInv (fst (pm_run ops m)) (fst (bag_run ops b)).
+Proof.
+  revert m b. induction ops as [|o ops IH]; intros m b Hinv; cbn [pm_run bag_run].
+  - cbn. split; [reflexivity | assumption].
+  - destruct (pm_step_refines o m b Hinv) as [Hout Hinv'].
+    destruct (pm_step o m) as [m' x]. destruct (bag_step o b) as [b' y]. cbn [fst snd] in *.
+    destruct (IH m' b' Hinv') as [Houts Hinv''].
+    destruct (pm_run ops m') as [m'' xs]. destruct (bag_run ops b') as [b'' ys]. cbn [fst snd] in *.
+    split; [congruence | assumption].
+Qed.
+
+Lemma PInv_init : PInv None [].
+Proof. split; reflexivity. Qed.
